@@ -40,6 +40,11 @@ TENSORS = {
     "k2": [[0j, S(0.7) + 0j], [S(0.7) + 0j, 0j]],
     "dm4c": [[0.4, 0.1 + 0.05j, 0.0, 0.05], [0.1 - 0.05j, 0.3, 0.05j, 0.0], [0.0, -0.05j, 0.2, 0.02], [0.05, 0.0, 0.02, 0.1]],
     "herm44": [[1.0, 0.3 - 0.4j, 0.0, 0.2], [0.3 + 0.4j, -0.5, 0.1j, 0.0], [0.0, -0.1j, 0.7, 0.4], [0.2, 0.0, 0.4, -1.2]],
+    # three-qubit objects (wire ORDER of multi-index arguments is only visible from three wires on)
+    "m88": [[round(math.sin(3 * i + 7 * j + 1), 3) for j in range(8)] for i in range(8)],
+    "cm88": [[round(math.sin(3 * i + 7 * j + 1), 3) + 1j * round(math.cos(5 * i - 2 * j + 2), 3) for j in range(8)] for i in range(8)],
+    "cv8": [round(math.sin(2 * i + 1), 3) + 1j * round(math.cos(3 * i + 2), 3) for i in range(8)],
+    "b288": [[[round(math.sin(3 * i + 7 * j + 1 + 11 * b), 3) for j in range(8)] for i in range(8)] for b in range(2)],
     # integer / boolean
     "iv3": [1, -2, 3], "im22": [[1, 2], [3, 4]], "idx2": [2, 0], "idx1": [1], "bv3": [True, False, True],
 }
@@ -125,6 +130,12 @@ R("vn_entanglement_entropy", "$dm4c", L(0), L(1)); R("vn_entanglement_entropy", 
 R("reduce_dm", "$dm4c", L(0)); R("reduce_dm", "$dm4c", L(1, 0)); R("reduce_dm", "$dm4r", L(1), grad=[0]); R("reduce_dm", "$dm4c", L(1), kw={"c_dtype": "complex64"})
 R("reduce_statevector", "$cv4", L(0)); R("reduce_statevector", "$cv4", L(1, 0)); R("reduce_statevector", "$b24", L(1)); R("reduce_statevector", "$v4", L(1), grad=[0])
 R("partial_trace", "$dm4c", L(0)); R("partial_trace", "$m44", L(1), grad=[0]); R("partial_trace", "$dm4c", L(0, 1)); R("partial_trace", "$b322", L(0))
+for _idx in (L(2, 0), L(1, 0), L(2, 1), L(0, 2), L(2, 1, 0), L(1, 2, 0)):
+    R("partial_trace", "$cm88", _idx); R("partial_trace", "$b288", _idx)
+R("partial_trace", "$m88", L(2, 0), grad=[0]); R("partial_trace", "$m88", L(1, 0), grad=[0])
+for _idx in (L(2, 0), L(1, 0), L(2, 1), L(2, 0, 1), L(1, 2, 0), L(2, 1, 0)):
+    R("reduce_dm", "$cm88", _idx); R("reduce_statevector", "$cv8", _idx)
+R("reduce_dm", "$m88", L(2, 0), grad=[0]); R("reduce_dm", "$b288", L(2, 0))
 R("relative_entropy", "$dm4c", "$dm4s"); R("relative_entropy", "$dm4r", "$dm4s", kw={"base": 2}); R("relative_entropy", "$psd22", "$psd22b", grad=[0, 1], note="sym")
 R("trace_distance", "$dm4c", "$dm4s"); R("trace_distance", "$psd22", "$psd22b", grad=[0, 1], note="sym"); R("trace_distance", "$bsym322", "$psd22")
 R("sqrt_matrix", "$psd22"); R("sqrt_matrix", "$dm4c"); R("sqrt_matrix", "$rd22"); R("sqrt_matrix", "$b322", note="not psd: skip", cmp="skip")
